@@ -42,6 +42,69 @@ def roundtrip_path(I, res, prop, shape):
         res.samples.append(dict(check="value-roundtrip", shape=shape, result=repr(got)[:200]))
 
 
+def float_out_path(I, res, prop):
+    """from_js of a double the script engine hands back: the JSON number that arrives is numerically the same.
+    f = k (integral, |k| <= 10^30, far beyond i64) or k + 1/2 (decision)."""
+    k = z3.Int("k")
+    I.assume(z3.And(k >= -(10**30), k <= 10**30))
+    half = I.path.choose(2, "fraction") == 1
+    f = z3.ToReal(k) + (z3.RealVal("1/2") if half else z3.RealVal(0))
+    ctx = Opaque("jsctx")
+    back = I.call_raw("<env::value::ActValue as rquickjs::FromJs>::from_js", [Ptr([ctx], 0), JsV("Float", f)], None)
+    res.witnesses += 1
+    if back.d != 0:
+        res.violations.append(Violation(prop, "value:from_js-failed:float", "from_js failed on a double", "value:float-out", dict(decisions=list(I.path.taken)), {}, None))
+        return
+    got = back.f[0].f[0]
+    res.obligations += 1
+    if got.d != 2:
+        res.violations.append(Violation(prop, "value:double-not-a-number", "a double came back as %r" % (got,), "value:float-out", dict(decisions=list(I.path.taken)), {}, None))
+        return
+    y = got.f[0].n
+    ys = z3.ToReal(y) if (is_sym(y) and z3.is_int(y)) else (z3.RealVal(repr(y)) if not is_sym(y) else y)
+    neq = z3.Not(ys == f)
+    if I.check_sat(neq):
+        m = I.model(neq)
+        val = str(m.eval(k, model_completion=True)) if m is not None else "?"
+        res.violations.append(Violation(prop, "value:double-changed-leaving-script:%s" % ("fractional" if half else "integral"),
+                                        "a double (e.g. %s%s) handed back by the script engine arrives as another number (%r)" % (val, " + 0.5" if half else "", got),
+                                        "value:float-out", dict(decisions=list(I.path.taken), half=half), {"k": val}, None))
+    if len(res.samples) < 2:
+        res.samples.append(dict(check="float-out", fractional=half, result=repr(got)[:160]))
+
+
+def float_out(I, prop):
+    res = explore(I, "value:float-out", lambda I, res: float_out_path(I, res, prop), max_paths=50)
+    for v in res.violations:
+        v.confirmed, v.replay = confirm_float(v)
+    return res
+
+
+def confirm_float(v):
+    """Replay: a script returns the literal double; the terminal outputs must carry the same number."""
+    from . import replay, scen
+    try:
+        k = int(v.model.get("k"))
+    except (TypeError, ValueError):
+        return None, None
+    half = v.decisions.get("half")
+    lit = ("%d.5" % k) if half else ("%d.0" % k if abs(k) < 10**15 else "%de0" % k)
+    want = k + 0.5 if half else float(k)
+    model = scen.wf("m", [scen.step("s1", [scen.code("c1", "return { out: %s };" % lit)])], outputs={"out": None})
+    out = replay.run({"config": {"keep_processes": True}, "threads": 2, "models": [model], "steps": [{"op": "start", "mid": "m", "inputs": {}}], "known_nids": ["m", "s1", "c1"]})
+    if "error" in out:
+        return None, out
+    evs = [e for e in out.get("events", []) if e["kind"] == "complete"]
+    if not evs:
+        return None, dict(events=out.get("events"))
+    got = (evs[0].get("outputs") or {}).get("out")
+    try:
+        same = float(got) == float(want)
+    except (TypeError, ValueError):
+        same = False
+    return (not same), dict(script_returned=lit, came_back=got)
+
+
 def num_equal(I, a, b):
     """Structural equality of JSON values, numbers compared numerically (int vs integral float allowed)."""
     if a.d != b.d:
